@@ -154,12 +154,8 @@ def judge(prop, case, rec, out):
         mon['linksNumbered'] = lid == list(range(1, len(lid) + 1))
     hyp = {}
     sig = None
-    if not mon.get('networkEdges', True) and not out['hyp']['noBraces']:
-        hyp['noBraces'] = False
-        sig = 'noBraces'
-        if not all(v for k, v in mon.items() if k != 'networkEdges'):
-            hyp = {}
-            sig = None
+    # (until the repair of KF-R1 a failing network clause on a name with braces was a known finding; the clause is now claimed for
+    # every single-line name)
     nontrivial = rec['out'] == 'ok' and len(case['tasks']) >= 3
     return Outcome(case, eq, mon, hyp, nontrivial, common.digest(case), info, sig)
 
